@@ -64,6 +64,33 @@ var SpecialVariants = map[string][][]string{
 		{"-x", "c", "-fopenmp", "-O1", "-g"},
 		{"-x", "c", "-fopenmp", "-O1", "--target=aarch64-linux-gnu"},
 	},
+	"exotic.c": {
+		{"-x", "c", "-O0", "-fenable-matrix"},
+		{"-x", "c", "-O1", "-fenable-matrix", "-g"},
+		{"-x", "c", "-O2", "-fenable-matrix", "-march=haswell"},
+		{"-x", "c", "-O1", "-fenable-matrix", "--target=aarch64-linux-gnu"},
+	},
+	"clones.c": {
+		{"-x", "c", "-O0"},
+		{"-x", "c", "-O2"},
+		{"-x", "c", "-O1", "-g", "-fPIC"},
+	},
+	"seh.c": {
+		{"-x", "c", "-O0", "--target=x86_64-pc-windows-msvc", "-fms-extensions"},
+		{"-x", "c", "-O1", "--target=x86_64-pc-windows-msvc", "-fms-extensions", "-g"},
+		{"-x", "c", "-O2", "--target=i686-pc-windows-msvc", "-fms-extensions"},
+		{"-x", "c", "-O1", "--target=aarch64-pc-windows-msvc", "-fms-extensions"},
+	},
+	"sve.c": {
+		{"-x", "c", "-O0", "--target=aarch64-linux-gnu", "-march=armv8-a+sve", "-ffreestanding"},
+		{"-x", "c", "-O2", "--target=aarch64-linux-gnu", "-march=armv8-a+sve", "-ffreestanding"},
+		{"-x", "c", "-O2", "-g", "--target=aarch64-linux-gnu", "-march=armv8-a+sve2", "-ffreestanding", "-msve-vector-bits=256"},
+	},
+	"cuda.cu": {
+		{"-x", "cuda", "--cuda-device-only", "-nocudalib", "-nocudainc", "--cuda-gpu-arch=sm_70", "-O1"},
+		{"-x", "cuda", "--cuda-device-only", "-nocudalib", "-nocudainc", "--cuda-gpu-arch=sm_35", "-O0", "-g"},
+		{"-x", "cuda", "--cuda-host-only", "-nocudalib", "-nocudainc", "-O1"},
+	},
 	"simd.c": {
 		{"-x", "c", "-O0", "-march=skylake-avx512"},
 		{"-x", "c", "-O2", "-march=skylake-avx512"},
